@@ -383,6 +383,23 @@ def sym_around(x, dec=0):
     return _np.around(x, dec)
 
 
+def sym_around_known(x, dec, known):
+    """np.around(x, dec) when the harness knows a set of values that are exact
+    multiples of 10**-dec (e.g. axial planes): the result r is within half a unit
+    of x, and equals any known multiple p with |x - p| < half a unit.  Pure linear
+    real arithmetic (no integer variable)."""
+    if not isinstance(x, Sym):
+        return _np.around(x, dec)
+    r = CTX.fresh('rndk')
+    half = z3.RealVal(1) / (2 * 10 ** int(dec))
+    cons = [r - x.e <= half, x.e - r < half]
+    for p in known:
+        pz = toz(p)
+        cons.append(z3.Implies(z3.And(x.e - pz < half, pz - x.e < half), r == pz))
+    CTX.side.append(z3.And(*cons))
+    return Sym(r)
+
+
 def sym_floor(x):
     if isinstance(x, Sym):
         n = CTX.fresh('flr', 'int')
